@@ -9,6 +9,7 @@ PROPS_MODULE = "AslProps.C07"
 DRIVER = "c07"
 RULE = ("cases = groups of Xml::decode calls (`dec`) on generated documents (comments, PIs, DOCTYPE with nested <>, XML "
         "declaration, named/decimal/hex references incl. out-of-range ones, both quote kinds, blanks inside tags), on their "
+        "survivors (`sub`: one node of the decoded tree kept after the tree is released: its parent() must be null, its subtree intact), "
         "mutations (every/random truncation, byte insert/delete/replace, extra/missing/mismatched end tags, </>, unterminated "
         "references), on token soups, random bytes and exhaustive short strings over markup alphabets; plus Xml::encode (`enc`) "
         "and decode(encode(t)) (`rt`) on generated DOM trees up to depth 12 (compact and indented) with & < > quotes, blanks "
@@ -325,6 +326,9 @@ def gen(rng, tier):
         for _ in range(6):
             m = mutate(rng, m if rng.random() < 0.5 else d)
             c.append(dec(m))
+        # a handle to one node kept after the decoded tree is released (k-th node in document order)
+        c.append("sub %s %d" % (hexs(d), rng.randrange(0, 40)))
+        c.append("sub %s %d" % (hexs(m), rng.randrange(0, 8)))
         cases.append(c)
     # 2. every truncation of small documents
     for i in range(40 if quick else 600):
@@ -561,8 +565,8 @@ def compact(t):
     return s + b">" + b"".join(compact(c) for c in t[3]) + b"</" + t[1] + b">"
 
 
-def ref_dec(data):
-    """expected dump for documents that an XML processor accepts and that stay inside the subset where asl claims XML behaviour"""
+def ref_tree(data):
+    """expected tree for documents that an XML processor accepts and that stay inside the subset where asl claims XML behaviour"""
     import xml.parsers.expat as expat
     if not data or b"\r" in data or b"\x00" in data or b"<!ENTITY" in data or b"<![CDATA[" in data:
         return None
@@ -630,7 +634,20 @@ def ref_dec(data):
         return None
     if st["bad"] or len(st["stack"]) != 1 or len(st["stack"][0][3]) != 1:
         return None
-    return dump_root(st["stack"][0][3][0])
+    return st["stack"][0][3][0]
+
+
+def ref_dec(data):
+    t = ref_tree(data)
+    return None if t is None else dump_root(t)
+
+
+def preorder_nodes(t):
+    out = [t]
+    if t[0] == "E":
+        for c in t[3]:
+            out += preorder_nodes(c)
+    return out
 
 
 def reference(line):
@@ -638,6 +655,12 @@ def reference(line):
     try:
         if t[0] == "dec":
             return ref_dec(unhex(t[1]))
+        if t[0] == "sub":
+            tr = ref_tree(unhex(t[1]))
+            if tr is None:
+                return None
+            pre = preorder_nodes(tr)
+            return dump_root(pre[int(t[2]) % len(pre)])   # the survivor has no parent; its subtree is intact
         if t[0] == "deep":
             n = int(t[1])
             return "deep depth=%d nodes=%d badparents=0" % (n, n) if t[2] == "0" and n > 0 else "deep null"
@@ -658,6 +681,9 @@ def reference(line):
 def oracle(case, impl, model, crash):
     """property oracle judged on the implementation's behaviour alone (DESIGN 1.3)"""
     if crash:
+        if case and all(l.startswith("sub ") for l in case):
+            return True, ("looking at a node of the decoded tree (parent(), children) after the tree itself was released is a memory "
+                          "error: %s" % crash)
         return True, "Xml::decode / encode did not terminate normally (memory error or abort): %s" % crash
     outs = [o for o in impl if o != "case"]
     for l, o in zip(case, outs):
@@ -703,6 +729,12 @@ def simplify_line(line):
             cands = [c for c in cands if text_only_sole(c) or not sole]   # stay inside the indented clause's side condition
         for c in cands:
             yield "%s %s %s" % (t[0], t[1], " ".join(tokens(c)))
+        return
+    if t[0] == "sub" and len(t) == 3:
+        for k in range(0, min(int(t[2]), 6)):
+            yield "sub %s %d" % (t[1], k)
+        for l in simplify_line("dec " + t[1]):
+            yield "sub %s %s" % (l.split()[1], t[2])
         return
     if t[0] != "dec" or len(t) != 2:
         return
@@ -750,7 +782,8 @@ LEVEL_TEXT = ("Proved in Lean 4 about the executable transcription of Xml::decod
               "suffices (ref_buffer_fits, every int); termination is structural (one step per input byte); (2) xml_parent_links — in every "
               "returned tree, at every depth, each child's parent pointer is the identity of the element containing it; "
               "(2b) xml_root_parent_null — the returned element's own parent is null (code after fix 5247de7; before it parent() read freed "
-              "memory); (3) xml_roundtrip_compact — for EVERY element tree (any depth/fan-out) whose tag and attribute names pass the decoder's own "
+              "memory); (2c) xml_survivor_links — a node of the returned tree kept while the tree is released has a null parent and intact "
+              "links below it (code after fix c581d77; before it parent() read freed memory); (3) xml_roundtrip_compact — for EVERY element tree (any depth/fan-out) whose tag and attribute names pass the decoder's own "
               "name tests (xml_names_accepted: every XML 1.0 Name as UTF-8 bytes does), with arbitrary NUL-free attribute values and text, decode(encode(t,false)) is a tree whose erasure equals "
               "normalize(t) (merge adjacent text, drop whitespace-only text; normalize is an independent specification, proved equal to what "
               "the decoder rebuilds); (4) xml_roundtrip_indented — the same for encode(t,true) when text occurs only as a sole child; "
